@@ -30,7 +30,7 @@ use ckbv::fixture::*;
 use ckbv::poolfix::*;
 use ckbv::util::{flag, opt, opt_u64, Rng, Scratch};
 use serde_json::{json, Value};
-use std::collections::{HashMap, HashSet};
+use std::collections::HashSet;
 use std::io::Write;
 
 fn profile(p: u64) -> Scn {
@@ -485,16 +485,15 @@ fn save_state(nw: &NW, done: bool, restart: Option<&str>) -> Value {
 }
 
 fn load_world(scn: &Scn, node: Node, s: Option<&Value>) -> World {
-    let c = node.shared.consensus().clone();
-    let outs: Vec<OutRec> = (0..scn.genesis_cells)
-        .map(|i| OutRec { op: genesis_cell(&c, i), cap: CELL_CAP, name: ("g".to_string(), i as u32 + 1), creator: None, lock_variant: 0 })
-        .collect();
-    let mut w = World {
-        scn: scn.clone(), c, node, prefix: String::new(), outs, txs: vec![], tx_by_hash: HashMap::new(), tx_by_short: HashMap::new(),
-        blocks: vec![], blk_by_hash: HashMap::new(), chain: vec![], events: vec![], now: ckb_systemtime::unix_time_as_millis(),
-        last_dump: None, salt: 0, expiry_ms: HOUR_MS, tmp_before: tmp_listing(), pool_names: vec![], stopped: false, stop_reason: None,
-        probe_templates: false, probe_budget: 0, n_templates: 0, probe_rng: Rng::new(77),
-    };
+    // World::new starts its own (temp-db) node; the node under test on the persistent directory takes its place.
+    // (Built this way rather than by a struct literal so that fields other bindings add to World do not matter.)
+    let before = tmp_listing();
+    let mut w = World::new(scn, "");
+    let temp = std::mem::replace(&mut w.node, node);
+    if drop_bounded(temp) {
+        tmp_sweep(&before);
+    }
+    w.events.clear();
     let Some(s) = s else { return w };
     w.salt = s["salt"].as_u64().unwrap();
     let us = |v: &Value| -> Vec<usize> { v.as_array().unwrap().iter().map(|x| x.as_u64().unwrap() as usize).collect() };
